@@ -90,9 +90,8 @@ func (p Polygon) Validate() error {
 				// It's ok to access the first coord (index 0), since we've
 				// already checked to ensure that no ring is empty.
 				iStart := p.rings[i].Coordinates().GetXY(0)
-				jStart := p.rings[j].Coordinates().GetXY(0)
-				nestedFwd := relatePointToRing(iStart, p.rings[j]) == interior
-				nestedRev := relatePointToRing(jStart, p.rings[i]) == interior
+				nestedFwd := ringHasControlPointInsideRing(p.rings[i], p.rings[j])
+				nestedRev := ringHasControlPointInsideRing(p.rings[j], p.rings[i])
 				if nestedFwd || nestedRev {
 					return violateRingNested.errAtXY(iStart)
 				}
@@ -148,6 +147,25 @@ func (p Polygon) Validate() error {
 		return violateInteriorConnected.err()
 	}
 	return nil
+}
+
+// ringHasControlPointInsideRing checks if the first control point of ring a
+// that isn't on the boundary of ring b is in the interior of ring b. Control
+// points on the boundary of b are skipped because they don't indicate which
+// side of b the rest of a is on (two rings are allowed to touch at a point,
+// which may be the point that a starts at).
+func ringHasControlPointInsideRing(a, b LineString) bool {
+	seq := a.Coordinates()
+	n := seq.Length()
+	for i := 0; i < n; i++ {
+		switch relatePointToRing(seq.GetXY(i), b) {
+		case interior:
+			return true
+		case exterior:
+			return false
+		}
+	}
+	return false
 }
 
 func validateRing(r LineString) error {
